@@ -17,6 +17,8 @@ P = {
          "Coq proof (induction on fuel: allocation monotonicity, fresh nodes) + differential sharing-set comparison on executed code", "4 C04"),
  "C05": ("proof", "Coq theorem find_field_spec: the model of xtype.FindField returns the exact-name member, else (matchIgnoreCase) the unique case-insensitive one, several => ambiguity, none => NoMatch; nil on a dotted path yields nil; '.' is the whole source; skipped fields keep the old content. Correspondence: struct pairs derived by rename/re-case/drop/add edits with map/ignore/ignoreMissing/ignoreUnexported/matchIgnoreCase placed on methods; outcome class and executed field values vs. model.",
          "Coq proof (induction over member lists) + vm_compute differential on executed field values", "4 C05"),
+ "C12": ("proof", "Coq theorem C12_precedence: for EVERY field of the settings record and all line lists, the value in effect for a method is the last line carrying it on the method, else on the converter, else among the -g lines, else the default (proved from the left-fold structure of the parser model, table-generic); bare/yes enable and no disables; unknown / empty / other-level keys and the wrapErrors-wrapErrorsUsing pair are errors; the implemented key->field table (regenerated from parseCommon's AST) equals the documented one. Tie: the exhaustive grid {absent,bare,yes,no}^3 x every inheritable setting (+ sibling methods, string settings, error placements) is parsed by the REAL config code and each resulting record / error class is compared with the model by vm_compute; the core streams compute their settings with the same model, so the effect on generation is compared too.",
+         "Coq proof (induction over line lists, table-generic) + extracted key tables + exhaustive vm_compute differential grid", "4 C12"),
  "C11": ("proof", "Coq: for all types of the stated shapes the generator model emits 'pointer to the conversion' for T->*U (which evaluates to a non-nil fresh pointer) and, only with useZeroValueOnPointerInconsistency, 'zero value for nil else conversion of the pointee' for *T->U; proofs are over the regenerated rule predicates. default FUNC / default:update are not modelled yet (partial). Correspondence as C02 with pointer-depth edits.",
          "Coq proof over extracted pointer rules + evaluation lemmas + vm_compute differential", "4 C11"),
 }
@@ -26,7 +28,7 @@ for pid, (cat, text, tech, ref) in sorted(P.items()):
     checks.append({"property_id": pid, "quick_cmd": "./check %s --tier quick" % pid, "thorough_cmd": "./check %s --tier thorough" % pid,
                    "evidence_file": "evidence/%s.json" % pid, "replay_cmd_template": "./check %s --replay {path}" % pid, "engine": "coq-model",
                    "level_claimed": {"category": cat, "text": text, "design_ref": "DESIGN.md section " + ref},
-                   "level_note": CORE_NOTE, "technique": tech})
+                   "level_note": (CORE_NOTE if pid != "C12" else "Trusted: Coq kernel + vm_compute; extractor (switch cases of parseCommon/parseConverterLine/parseMethodLine -> tables); harness. Regular expressions are strings; function references (extend, map|FUNC, default), enum:map/enum:transform and the validation of converter-only settings are outside the model."), "technique": tech})
 checks.sort(key=lambda c: c["property_id"])
 m["checks"] = checks
 m["hooks"]["source_commits"] = hook_commits
